@@ -112,6 +112,20 @@ def corpus():
         ('user', 'associate'), ('peer', [ac, rc.enc_abort(2, 0)]), ('fin',)])
     c['R6_peer_releases'] = dict(role='requestor', steps=[
         ('user', 'associate'), ('peer', [ac]), ('peer', [rel_rq]), ('fin',)])
+    # a PDU the provider answers with its own A-ABORT (AA-1 / AA-8), with the peer's A-ABORT
+    # right behind it in the same turn: the second PDU must still be acted upon
+    c['A15_unexpected_then_abort'] = dict(role='acceptor', steps=[
+        ('peer', [rel_rq, rc.enc_abort(2, 0)]), ('fin',)])
+    c['A16_unexpected_ac_then_abort'] = dict(role='acceptor', steps=[
+        ('peer', [rq]), ('peer', [ac, rc.enc_abort(0, 0)]), ('fin',)])
+    c['R7_unexpected_then_abort'] = dict(role='requestor', steps=[
+        ('user', 'associate'), ('peer', [rel_rq, rc.enc_abort(2, 0)]), ('fin',)])
+    # one turn of exactly as many bytes as the provider asks the socket for in one recv()
+    # (its configured maximum PDU length), then the peer waits for the answers
+    two = [echo_rq(1), echo_rq(2)]
+    c['A17_turn_fills_recv_buffer'] = dict(role='acceptor', max_pdu_length=len(b''.join(two)),
+                                           steps=[('peer', [rq]), ('peer', two),
+                                                  ('peer', [rel_rq]), ('fin',)])
     return c
 
 
@@ -205,8 +219,9 @@ def play(convo, plan, seed, prebuffer_first=False, short_reads=False):
         cuts, _ = plan.get(0, (None, None)) if plan else (None, None)
         segs_first = _segments(data, steps[first_peer][1], cuts)
         pre = segs_first[0]
-    rig = Rig(seed, role=role, prebuffer=pre, short_reads=short_reads)
-    obs = {'settled': True}
+    rig = Rig(seed, role=role, prebuffer=pre, short_reads=short_reads,
+              max_pdu_length=convo.get('max_pdu_length', 65536))
+    obs = {'settled': True, 'progress': []}
     try:
         user = ReactiveUser(rig, convo.get('user'))
         busy = lambda: user.task.kind not in ('q.get',) and not user.task.done
@@ -236,6 +251,10 @@ def play(convo, plan, seed, prebuffer_first=False, short_reads=False):
                     # the peer closes right behind its last byte (no pause in non-baseline plans)
                     rig.peer_fin()
                 obs['settled'] &= rig.settle(extra=busy)
+                # what exists once this turn has been delivered completely and things are quiet
+                rig.wire_take()
+                obs['progress'].append((turn_no, len(user.seen),
+                                        len(rc.parse_stream(rig.wire_bytes)[0])))
             elif st[0] == 'user':
                 user_action(rig, st[1])
                 obs['settled'] &= rig.settle(extra=busy)
